@@ -17,6 +17,7 @@ import (
 
 type mkHistEvent struct {
 	Ev      string `json:"ev"`
+	B       int    `json:"b"`    // batch: line ids are local to a batch (a header event starts one)
 	H       int    `json:"h"`    // history / dialogue run
 	P       string `json:"p"`    // fresh | reused | runner
 	Line    int    `json:"line"` // id of the line (1-based, dense)
@@ -230,6 +231,40 @@ func markupHistory(m map[string]string) error {
 	}
 	pool := &mkLinePool{ids: map[string]int{}}
 	var events []mkHistEvent
+	var lw *ndjsonWriter
+	if f := m["lines"]; f != "" { // (batch, id) -> line (code points), for reports and replay files
+		if lw, err = newNDJSON(f); err != nil {
+			return err
+		}
+	}
+	batch, nEvents, nLines := 1, 0, 0
+	// flush writes the current batch: its header, its events, its lines
+	flush := func() error {
+		if len(events) == 0 {
+			return nil
+		}
+		if err := out.Write(map[string]any{"ev": "header", "b": batch, "nlines": len(pool.lines)}); err != nil {
+			return err
+		}
+		for _, e := range events {
+			if err := out.Write(e); err != nil {
+				return err
+			}
+		}
+		if lw != nil {
+			for i, l := range pool.lines {
+				if err := lw.Write(map[string]any{"b": batch, "id": i + 1, "cps": mkCps(l)}); err != nil {
+					return err
+				}
+			}
+		}
+		nEvents += len(events)
+		nLines += len(pool.lines)
+		batch++
+		events = events[:0]
+		pool = &mkLinePool{ids: map[string]int{}}
+		return nil
+	}
 	var cases []map[string]any // one entry per history / dialogue run h, replayable with --cases
 	cpsAll := func(ls []string) [][]int {
 		r := make([][]int, len(ls))
@@ -251,7 +286,7 @@ func markupHistory(m map[string]string) error {
 		if r.Outcome == "error" && p == "fresh" {
 			nFailing++
 		}
-		events = append(events, mkHistEvent{Ev: "parse", H: h, P: p, Line: pool.id(line), Outcome: r.Outcome, Got: r})
+		events = append(events, mkHistEvent{Ev: "parse", B: batch, H: h, P: p, Line: pool.id(line), Outcome: r.Outcome, Got: r})
 	}
 	direct := func(lines []string) {
 		h++
@@ -313,6 +348,11 @@ func markupHistory(m map[string]string) error {
 		rnd := rand.New(rand.NewSource(Seed()))
 		g := &mkGen{rnd: rand.New(rand.NewSource(Seed() + 11))}
 		for i := 0; i < n; i++ {
+			if i%60 == 59 {
+				if err := flush(); err != nil {
+					return err
+				}
+			}
 			if i%3 != 2 {
 				// a history over a small set of lines, so that lines repeat at different depths
 				set := mkHistoryLines(g, rnd, 2+rnd.Intn(4), false)
@@ -347,27 +387,13 @@ func markupHistory(m map[string]string) error {
 			}
 		}
 	}
-	if err := out.Write(map[string]any{"ev": "header", "nlines": len(pool.lines)}); err != nil {
+	if err := flush(); err != nil {
 		return err
-	}
-	for _, e := range events {
-		if err := out.Write(e); err != nil {
-			return err
-		}
 	}
 	if err := out.Close(); err != nil {
 		return err
 	}
-	if f := m["lines"]; f != "" { // id -> line (code points), for reports and replay files
-		lw, err := newNDJSON(f)
-		if err != nil {
-			return err
-		}
-		for i, l := range pool.lines {
-			if err := lw.Write(map[string]any{"id": i + 1, "cps": mkCps(l)}); err != nil {
-				return err
-			}
-		}
+	if lw != nil {
 		if err := lw.Close(); err != nil {
 			return err
 		}
@@ -387,7 +413,7 @@ func markupHistory(m map[string]string) error {
 		}
 	}
 	stats, _ := json.Marshal(map[string]any{"histories": nDirect, "runner_runs": nRunnerRuns, "runner_skipped": nRunnerSkipped,
-		"events": len(events), "distinct_lines": len(pool.lines), "failing_line_parses": nFailing})
+		"events": nEvents, "distinct_lines": nLines, "failing_line_parses": nFailing})
 	fmt.Println(string(stats))
 	return nil
 }
